@@ -41,25 +41,6 @@ Spec == Init /\ [][Next]_vars
 
 Outcome(cc) == Eval(RuleOf(cc), DataOf(cc))
 
-\* ---- the pinned domain of the statement
-\* path shape: "odd" when it has an empty segment, a trailing unescaped dot or a trailing lone backslash
-RECURSIVE ShapeLoop(_, _, _, _)
-ShapeLoop(s, i, sliceEmpty, escape) ==
-  IF i > Len(s) THEN (IF escape \/ sliceEmpty THEN "odd" ELSE "ok")
-  ELSE IF escape THEN ShapeLoop(s, i + 1, FALSE, FALSE)
-  ELSE IF s[i] = 92 THEN ShapeLoop(s, i + 1, sliceEmpty, TRUE)
-  ELSE IF s[i] = 46 THEN (IF sliceEmpty THEN "odd" ELSE ShapeLoop(s, i + 1, TRUE, FALSE))
-  ELSE ShapeLoop(s, i + 1, FALSE, FALSE)
-PathShape(s) == IF s = <<>> THEN "ok" ELSE ShapeLoop(s, 1, TRUE, FALSE)
-\* an index segment must be the canonical decimal text of its integer ("+1", "01", "-0" are left open)
-CanonicalSeg(seg) ==
-  LET ix == ParseI64(seg)
-  IN ix = NoIndex \/ seg = (IF ix.neg THEN <<45>> ELSE <<>>) \o DecDigits(ix.mag)
-PinnedKey(k) ==
-  CASE k.t = "z" -> TRUE
-    [] k.t = "s" -> PathShape(k.v) = "ok" /\ \A j \in DOMAIN SplitWithEscape(k.v, 46) : CanonicalSeg(SplitWithEscape(k.v, 46)[j])
-    [] k.t = "n" -> k.k = "i"
-    [] OTHER -> FALSE
 \* the key value actually used (for computed keys: as evaluated by the specification)
 UsedKey(cc) == IF cc.form = 4 THEN Null
                ELSE IF cc.form = 5 THEN Eval(KE11[cc.k], DataOf(cc)).v ELSE K11[cc.k]
